@@ -169,6 +169,8 @@ def teardown(ctx):
 # ---- one multi-threaded case --------------------------------------------------------------------------------
 def expected(raw, lv, op):
     kind = op[0]
+    if kind == "clear":
+        return None
     if kind in ("count", "fresh_count"):
         return len(lv[op[1]])
     if kind == "of_length":
@@ -182,6 +184,9 @@ def expected(raw, lv, op):
 
 def perform(av, patts, op):
     kind = op[0]
+    if kind == "clear":  # the registry of classes is emptied while other threads create handles from equal bases
+        CTX.counters["ops.clear_cache_concurrent"] += 1
+        return Av.clear_cache()
     if kind == "count":
         return av.count(op[1])
     if kind == "fresh_count":
@@ -281,7 +286,7 @@ def chk_case(ctx, raw_enc, programs, p_yield, seed):
 
 
 def need_level(op):
-    return len(op[1]) if op[0] == "in" else op[1]
+    return len(op[1]) if op[0] == "in" else op[1]  # ("clear", 0) needs none
 
 
 CHECKS = {"case": chk_case}
@@ -312,8 +317,11 @@ def rand_program(rng, top):
             prog.append(["of_length", n])
         elif c < 0.8:
             prog.append(["in", rng.sample(range(n), n)])
-        elif c < 0.9:
+        elif c < 0.87:
             prog.append(["up_to", max(0, n - 1)])
+        elif c < 0.93:
+            prog.append(["clear", 0])
+            prog.append(["fresh_count", n])
         else:
             prog.append(["fresh_count", n])
     return prog
